@@ -1,1 +1,5 @@
-/-! Property theorems for C07 — placeholder until the property's model is built. -/
+import FcpptModel.Spec.C07
+/-! Property theorems for C07 — under construction. -/
+namespace Fcppt.C07
+theorem growth_ge (n c : Nat) : n ≤ growth n c := Nat.le_max_left _ _
+end Fcppt.C07
